@@ -184,6 +184,11 @@ func (m *c20Model) apply(o c20Op) int {
 			}
 			return 0
 		}
+		if strings.Contains(o.Text, "${A:=w}") {
+			if av, aset := m.vars["A"]; !aset || av == "" {
+				m.vars["A"] = "w"
+			}
+		}
 		switch o.Val {
 		case ":=", "=":
 			if !set || null && o.Val == ":=" {
@@ -356,6 +361,10 @@ func c20Ops() []c20Op {
 		for _, inner := range []string{"${b:=w}", "${b?m}", "$((1/0))", "$((b=3))", "${b:-w}"} {
 			ops = append(ops, c20Op{Kind: "expand", Name: "a", Val: op, Inner: inner, Text: "${a" + op + inner + "}"})
 		}
+	}
+	// an assigning expansion that is not the whole word: text, another expansion or quotes around it
+	for _, t := range []string{"pre-${a:=w}", "$0${a:=w}", "\"dir/${a:=w}\"", "$@${a:=w}", "${a:=w}post", "pre-${a:=w}-${A:=w}"} {
+		ops = append(ops, c20Op{Kind: "expand", Name: "a", Val: ":=", Text: t})
 	}
 	// pattern removal applied to the positional parameters (must not write through to Args)
 	for _, t := range [][2]string{{"${@%q}", "@"}, {"${@#p}", "@"}, {"${@%%?}", "@"}, {"${*#p}", "*"}, {"${1%p}", "1"}, {"\"${@%q}\"", "@"}} {
@@ -550,7 +559,7 @@ func init() {
 		id:    "C20",
 		level: "model_checking",
 		rule: "explicit-state BFS to depth 4 (quick) / 6 (thorough) from 8 initial environments (Args ∈ {sh; sh p q; 11 positionals; one empty positional} × Opts ∈ {0, nounset}); " +
-			"alphabet ≈ 245 operations: Set/Unset on ordinary, special and positional names, Expand of ${n op w} for 9 operator forms and 10 parameter kinds, pattern removal on $@/$*/$1, 30 composite forms ${a op INNER} whose word assigns, fails or does neither, Eval of 15 assigning/faulting/short-circuit forms; " +
+			"alphabet ≈ 250 operations: Set/Unset on ordinary, special and positional names, Expand of ${n op w} for 9 operator forms and 10 parameter kinds, pattern removal on $@/$*/$1, 30 composite forms ${a op INNER} whose word assigns, fails or does neither, 6 words in which the assigning expansion is surrounded by other text, Eval of 15 assigning/faulting/short-circuit forms; " +
 			"every transition is taken from every distinct reachable state; second phase without state merging: every history of ≤ 4 (thorough 5) operations over a reduced alphabet of ≈ 20 operations in which the observation (Walk, Get, Args) is itself an operation; distinct_nontrivial = distinct reachable store states other than the initial one",
 		assume: []string{"map model in c20.go; process environment cleared so that NewExecEnv starts from {IFS}",
 			"canonical state = sorted (name,value) of Walk + Args + Opts: Export/ReadOnly flags are not observed by any operation of the alphabet, so merged states have equal futures",
